@@ -16,6 +16,13 @@ def main():
         shutil.copytree('/repo', tree, ignore=shutil.ignore_patterns('.git', '__pycache__', '*.pyc', '.pytest_cache'))
         if what == 'none':
             pass
+        elif what.startswith('rev:'):
+            # undo one fix: commit of /repo, reverse-applied to the copy
+            diff = subprocess.run(['git', '-C', '/repo', 'show', '--format=', what[4:]], capture_output=True, text=True, check=True).stdout
+            subprocess.run(['git', 'init', '-q'], cwd=tree, check=True)
+            r = subprocess.run(['git', 'apply', '-R', '--whitespace=nowarn', '-'], cwd=tree, input=diff, text=True)
+            if r.returncode != 0:
+                print('REVERSE PATCH DOES NOT APPLY'); return 4
         elif what.endswith('.diff') or what.endswith('.patch'):
             subprocess.run(['git', 'init', '-q'], cwd=tree, check=True)
             r = subprocess.run(['git', 'apply', '--whitespace=nowarn', os.path.abspath(what)], cwd=tree)
